@@ -460,6 +460,9 @@ func vtC10GenBudget(r *rand.Rand) (string, []int64) {
 		kubeRes = int64(r.Intn(30)) * 100
 	case 3:
 		kubeRes = int64(r.Intn(4000))
+		if kubeRes > capM {
+			kubeRes = capM
+		}
 	default:
 		kubeRes = -int64(r.Intn(500)) // allocatable above capacity: clamps to zero
 	}
